@@ -15,7 +15,7 @@
    nm     := '-' | number                         anonymous, or the name d<number>
    expr   := c<hex> | a<idx> | (+|-|*|&|'|'|^) e e | n e | m e (load: not an expression function) | s8|s16|s32|u8|u16|u32 e | (<|>|]) e k | f<hex>
 
-   Output: `ok A idx:addr ...` (address of every item that has one) ` P idx@head+off ...` (every
+   Output: `ok A idx:addr ... [L<k>:addr ...]` (address of every item that has one; label addresses by laddr) ` P idx@head+off ...` (every
    data-like item: nearest preceding item with section_head_p, and the distance from it)
    ` S head:allocated:hexbytes ...` (per head: size passed to malloc and the bytes found)
    ` J:ok|bad` (jmpi to each label address obtained with laddr reaches the label) ` LR idx:ok|bad`
@@ -481,6 +481,8 @@ static void run_case (char *line) {
   printf ("ok A");
   for (int i = 0; i < nitems; i++)
     if (items[i].it != NULL && items[i].it->addr != NULL) printf (" %d:%llx", i, (unsigned long long) items[i].it->addr);
+  if (have_g >= 0)
+    for (int k = 0; k < 3; k++) printf (" L%d:%llx", k, (unsigned long long) ltv[k]);
   printf (" P");
   int head = -1;
   for (int i = 0; i < nitems; i++) {
